@@ -5,6 +5,8 @@ written by translate/gen_block_pairs.py from the imported `BlockParser._all_pair
 Tie: correspondence streams `block-clean`, `block-dirty`, `block-malformed` (driver family `block`): every helper of
 rogw/tranp/view/helper/block.py, DecoratorHelper._parse and CppViewHelper.Param.parse on the real code vs the model.
 Search: the laws of the property on the real helpers alone, with an independent top-level scanner as oracle.
+State: /repo after the four C18 repairs (3111a97 param default '=', d6d867d decorator top-level '=', eb33d21 brackets inside
+strings, f350973 parse_bracket nested groups); their witnesses are replayed (corpus + fixed search cases) and must pass.
 """
 from __future__ import annotations
 
@@ -358,8 +360,8 @@ def deco_text(rng: random.Random, mode: str, i: int) -> tuple[str, str, list[tup
 				label = None
 			else:
 				labels.add(label)
-		if label is None and value == '':
-			value = 'v'
+		if value == '':
+			value = 'v'  # an argument is never empty (`k=` would end in the delimiter: the boundary rule makes it positional)
 		args.append((label, value))
 	sep = ', ' if rng.random() < 0.8 else ','
 	joined = sep.join(v if l is None else f'{l}={v}' for l, v in args)
@@ -445,7 +447,7 @@ def corpus_cases(ctx: Ctx) -> Stream:
 def search_sep(ctx: Ctx) -> SearchResult:
 	B = _bp()
 	rng = ctx.sub_rng('law-sep')
-	res = SearchResult('break_separator laws on the real helper: exact top-level split on clean fragments; cuts only at top-level delimiters / rejoin up to blanks / balanced pieces on all fragments (independent scanner)')
+	res = SearchResult('break_separator laws on the real helper: exact top-level split, cuts only at top-level delimiters / rejoin up to blanks / balanced pieces, on fragments with clean and with arbitrary simple strings (independent scanner)')
 	hist: dict[str, int] = {}
 	seen: set[str] = set()
 	n = ctx.scale(20000, 150000)
@@ -463,17 +465,15 @@ def search_sep(ctx: Ctx) -> SearchResult:
 				res.findings.append(Finding(key='sep:exception', what=f'break_separator raises {exc_enum(e)} on a balanced fragment', replay={'text': text, 'delimiter': d}))
 				continue
 			bad: tuple[str, str] | None = None
-			if not dirty and pieces != expected_split(text, d):
-				bad = ('sep:clean-split-differs', f'break_separator({text!r}, {d!r}) = {pieces!r}, top-level split is {expected_split(text, d)!r}')
+			if pieces != expected_split(text, d):
+				bad = ('sep:split-differs' if dirty else 'sep:clean-split-differs', f'break_separator({text!r}, {d!r}) = {pieces!r}, top-level split is {expected_split(text, d)!r}')
 			elif not aligns(text, d, pieces):
 				bad = ('sep:cut-not-at-top-level-delimiter', f'break_separator({text!r}, {d!r}) = {pieces!r} is not a split at top-level delimiters that rejoins to the text')
 			elif not all(balanced(p) for p in pieces):
 				bad = ('sep:unbalanced-piece', f'break_separator({text!r}, {d!r}) = {pieces!r} has an unbalanced piece')
 			if bad:
 				res.findings.append(Finding(key=bad[0], what=bad[1], replay={'text': text, 'delimiter': d, 'pieces': pieces}))
-			k = 'dirty' if dirty else 'clean'
-			if dirty and pieces != expected_split(text, d):
-				k = 'dirty, fewer cuts than top-level delimiters (allowed by the statement)'
+			k = ('dirty' if dirty else 'clean') + f' pieces={min(len(pieces), 5)}{"+" if len(pieces) > 5 else ""}'
 			hist[k] = hist.get(k, 0) + 1
 		if i < 2:
 			res.samples.append({'text': text, 'pieces,': real_op(['sep', text, ','])})
@@ -752,23 +752,19 @@ def search_skip(ctx: Ctx) -> SearchResult:
 
 
 STATEMENTS: dict[str, str] = {
-	'skip_group / skip_string': '_skip_other_block started on the opening bracket (quote) of a group with a clean fragment inside (of a clean string) returns the position right behind the matching closer, for every nesting depth and every surrounding text',
-	'sep_spec': 'break_separator(render f, d) = the top-level pieces of f (cut at every top-level d except one in the very last position, nowhere else; each piece stripped of blanks; empty first piece kept; empty text gives []), for every clean fragment f and every delimiter character d',
-	'sep_only_top': 'clean f = f1 d f2 d ... fn at top level with clean fi and the result is [strip(render fi)]: every cut is a top-level delimiter',
+	'skip_group / skip_string': '_skip_other_block started on the opening bracket (quote) of a group (simple string) returns the position right behind the matching closer, for every nesting depth, every string content and every surrounding text',
+	'sep_spec (= sep_spec_dirty)': 'break_separator(render f, d) = the top-level pieces of f (cut at every top-level d except one in the very last position, nowhere else; each piece stripped of blanks; empty first piece kept; empty text gives []), for every fragment f with simple strings (brackets/other quote inside allowed) and every delimiter character d',
+	'sep_only_top': 'f = f1 d f2 d ... fn at top level with balanced fi and the result is [strip(render fi)]: every cut is a top-level delimiter',
 	'sep_rejoin': 'there are segments with d.join(segments) = text and result = [s.strip(" ") for s in segments]',
-	'sep_balanced': 'every returned piece is the text of a clean (balanced) fragment',
-	'sep_only_top_dirty': 'the same three laws (cuts only at top-level delimiters, rejoin, balanced pieces) for fragments whose strings are ARBITRARY simple quoted strings (brackets and the other quote inside): invariant on the closer stack (Shape), all nesting depths',
-	'sep_spec_dirty_counterexample': 'the exact split is false once a string contains a bracket: break_separator(\'"(", x\', ",") is one piece (the scanner over-skips, it never cuts inside)',
+	'sep_balanced': 'every returned piece is the text of a (balanced) fragment',
 	'sep_total': 'the loop of break_separator finishes for every text and delimiter (fuel len+1 is never exhausted)',
 	'last_block': 'break_last_block(render pre + open + render inner + close, kind) = (render pre, render inner) for all fragments pre, inner whose strings do not contain the brackets of that kind (other brackets and quotes allowed)',
 	'last_block_error': 'no opening or no closing bracket of the kind in the text: IndexError (ranges[-1])',
-	'decorator': 'DecoratorHelper._parse(path + "(" + render args + ")") = (path, dict built from exactly the top-level comma pieces of args, render args) for every path without "(" and every clean args fragment',
-	'decorator_dirty': 'with arbitrary simple strings in the arguments: path and join_args exact, the argument pieces are texts of fragments that rejoin (with top-level commas) to args - arguments may be merged, never cut inside a group or string',
-	'decorator_reassemble': 'each stored (key, value) puts its piece back together: label + "=" + value when the piece contains "=", else the piece under str(position)',
-	'decorator_positional_counterexample': 'a positional argument is NOT always stored under its position: f(g(k=1)) gives {"g(k": "1)"} (arg.count("=") also counts nested "=")',
-	'param / param_plain': 'Param.parse("t1 ... tn name [= default]") = (t1 ... tn joined by one blank, name, default.strip()) for non-empty clean tokens without top-level blank or "=" and a clean default without top-level "="',
-	'param_counterexample': 'without the restriction on the default the statement is false: "bool b = x == y" gives ("bool", "b", "")',
-	'bracket_counterexample': 'parse_bracket does NOT always return the whole group first / balanced blocks: "f(g(x))+1" gives ["(g(x))+1", "(x)"] (_parse continues at end + 1 after a nested block)',
+	'decorator': 'DecoratorHelper._parse(path + "(" + render args + ")") = (path, dict built from exactly the top-level comma pieces of args, render args) for every path without "(" and every args fragment',
+	'decorator_piece_positional / decorator_piece_labelled': 'a piece without top-level "=" is stored verbatim under str(position) whatever "=" are nested in it; a piece label=value is stored as exactly the texts around its first top-level "="',
+	'decorator_positional': 'f(v) for a single positional argument v (no top-level "," or "="): {"0": v.strip()} - the former counterexample f(g(k=1)) is an instance',
+	'param_plain / param_unrestricted': 'Param.parse("t1 ... tn name [= default]") = (t1 ... tn joined by one blank, name, default.strip()) for non-empty tokens without top-level blank or "=" and EVERY default fragment (also with top-level "=": bool b = x == y)',
+	'bracket_first': 'parse_bracket(name + group + tail)[0] is the whole group, for every inner fragment (nested same-kind groups, other kinds, strings)',
 }
 
 
@@ -815,10 +811,9 @@ def run(ctx: Ctx) -> int:
 		translate_ok=translate_ok, translate_msg=translate_msg,
 		statements=STATEMENTS,
 		partial={
-			'proved (all fragments, unbounded nesting, induction on Frag)': 'splitting cuts only at top-level delimiters, rejoin up to blanks, balanced pieces — for clean fragments with the exact split (sep_spec) and for fragments with arbitrary simple strings (sep_only_top_dirty); last bracket group of prefix+group (last_block, strings may contain the other bracket kinds and quotes); error branch; skip; decorator path/join_args/pieces; parameter type/name/default under the stated restriction',
-			'proved false on the current code (counterexample theorems, witnesses replayed on the real code by the search)': 'parameter default with a top-level "="; positional decorator argument containing "="; parse_bracket after a nested group; exact split with a bracket inside a string',
-			'correspondence only': '_analyze_entry, _parse, _parse_block, parse, parse_pair (modelled line by line and compared on every stream; no law of the property statement names them and parse_pair has no caller); multi-character and empty delimiters, brackets arguments of other lengths, unbalanced text',
-			'search only': 'decorator arguments with brackets/quotes inside strings (the scanner merges arguments: reported as finding)',
+			'proved (all fragments, unbounded nesting, induction on Frag)': 'splitting = exact top-level split (hence cuts only at top-level delimiters, rejoin up to blanks, balanced pieces) for fragments with arbitrary simple strings; last bracket group of prefix+group (strings may contain the other bracket kinds and quotes); error branch; skip; decorator path/join_args/pieces and the key/value of positional and labelled pieces; parameter type/name/default for every default fragment; first block of parse_bracket',
+			'formerly false, proved after the repairs 3111a97 d6d867d eb33d21 f350973': 'param_unrestricted, decorator_positional, sep_spec_dirty, bracket_first; the old witnesses are replayed from corpus/C18 and by the searches and must pass',
+			'correspondence + search only': 'every block of parse_bracket (beyond the first) is a balanced group; _analyze_entry, _parse, _parse_block, parse, parse_pair (modelled line by line and compared on every stream; parse_pair has no caller); multi-character and empty delimiters, brackets arguments of other lengths, unbalanced text',
 		},
 		assumptions=[
 			'fragments are rendered with the ASCII bracket/quote characters of BlockParser._all_pair (generated table; the proofs are redone when it changes)',
